@@ -314,6 +314,12 @@ def scaffold(keys, mode='dbg'):
             e.kind = 'const' if key.startswith('const:') else 'fn'
             e.key = key.split(':', 1)[1] if key.startswith('const:') else key
             e.opts = {}
+            if e.key.endswith(']') and '[' in e.key:
+                # `KEY[opt opt=val]`: entry options that influence extraction (e.g. r15)
+                e.key, o = e.key[:-1].rsplit('[', 1)
+                for kv in o.split():
+                    k_, _, v_ = kv.partition('=')
+                    e.opts[k_] = v_ or '1'
             e.text = ''
             e.unit = 'x'
             e.line = 0
@@ -350,6 +356,8 @@ def scaffold(keys, mode='dbg'):
             sigtxt = ' '.join(sig)
         kind = 'const' if key.startswith('const:') else 'fn'
         k2 = key.split(':', 1)[1] if key.startswith('const:') else key
+        if k2.endswith(']') and '[' in k2:
+            k2 = k2[:-1].rsplit('[', 1)[0] + ' [' + k2[:-1].rsplit('[', 1)[1] + ']'
         res.append(f'//! {kind} {k2}\n{sigtxt}\n    {GHOST_OPEN} ensures true {GHOST_CLOSE}\n{join(body)}')
     return ''.join(res)
 
@@ -359,7 +367,9 @@ def validate(unit=None, digits=('u64', 'u32', 'u16', 'u8'), modes=('dbg',)):
     bad = 0
     for m in modes:
         x = RUN.load_expansion(m)
-        for d in digits:
+        from . import props as P
+        pair_tags = [t for u in sorted(P.PAIR_UNITS) for t in P.unit_digits(u, digits)]
+        for d in (P.unit_digits(unit, digits) if unit in P.PAIR_UNITS else list(digits) + (pair_tags if unit is None else [])):
             g = Generator(x, ov, d, m)
             g.build_items()
             for p in g.problems:
